@@ -252,6 +252,10 @@ var c26ArgPool = []string{"Null", "Int", "Float", "Bool", "Str", "Time", "Dur", 
 	"Union2 Null List Int", "Union2 Null Tuple1 Int", "Union3 Null Int Float", "Union2 Null Float", "Union2 Null Time", "Union2 Null Dur",
 	"Union2 Null Bool", "Union2 Null Struct1 x61 Int", "List Any", "Union2 List Int Tuple1 Int"}
 
+// second-argument pool of the quick tier (all pairs): one representative per TypeID, plus nullable and mixed unions
+var c26ArgPoolQuick = []string{"Null", "Int", "Float", "Bool", "Str", "Time", "Dur", "Any", "ListNil", "List Int", "Struct1 x61 Int",
+	"Tuple2 Int Int", "Union2 Null Int", "Union2 Null Str", "Union2 Null List Int", "Union2 Null Tuple1 Int", "Union2 Int Str"}
+
 func repopLine(name string, ts []string) string {
 	return strings.TrimSpace(fmt.Sprintf("repop %s %d %s", hex.EncodeToString([]byte(name)), len(ts), strings.Join(ts, " ")))
 }
@@ -295,9 +299,15 @@ func genC26b(g *Gen, tier string, w *bufio.Writer) {
 		}
 		// all argument lists of length <= 2 over the pool (TypeFn overloads are found this way), a sample of length 3
 		fmt.Fprintln(w, repopLine(name, nil))
+		pool2 := c26ArgPool
+		if tier != "thorough" {
+			pool2 = c26ArgPoolQuick
+		}
 		for _, a := range c26ArgPool {
 			emitRepop(g, w, name, []string{a})
-			for _, b := range c26ArgPool {
+		}
+		for _, a := range pool2 {
+			for _, b := range pool2 {
 				emitRepop(g, w, name, []string{a, b})
 			}
 		}
